@@ -262,6 +262,11 @@ class ConcAlg:
     def is_nan(self, a): return math.isnan(a.v)
     def is_infinite(self, a): return math.isinf(a.v)
     def is_finite(self, a): return math.isfinite(a.v)
+    def to_f32(self, a):
+        import struct
+        if math.isnan(a.v) or math.isinf(a.v): return a
+        try: return Fl(struct.unpack('<f', struct.pack('<f', a.v))[0])
+        except OverflowError: return Fl(math.copysign(math.inf, a.v))
     def from_int(self, i): return Fl(float(i))
     def to_int(self, a, lo, hi):
         if math.isnan(a.v): return 0
